@@ -292,6 +292,11 @@ def _builder_rule(ctx):
                         f'read of self.{n.attr} is preceded by its assignment in build()' if ok else
                         f'self.{n.attr} may be read before build() assigned it (stale recipe of an earlier build)',
                         node=n)
+    if not stores and not any(isinstance(n, ast.Attribute) and isinstance(n.value, ast.Name) and n.value.id == 'self' and
+                              isinstance(n.ctx, ast.Load) and prog.lookup_method(b, n.attr) is None
+                              for m in b.methods.values() for n in iter_own_nodes(m.node)):
+        run.holds('C12.builder', b.module.name, 'Builder', 'instance state', 'the Builder keeps no instance state at all')
+        return
     run.floor('C12.builder', 4)
 
 
